@@ -271,6 +271,73 @@ func (comp) Gen(r *rand.Rand, tier string, emit func([]string)) {
 		}
 	}
 
+	// 3c. authenticity is a property of EACH datagram, never of what the listener saw before: right after a valid
+	// request P (nothing in between), datagrams that keep P's first 20 bytes (code, id, length, authenticator) but
+	// carry other attribute bytes of the same total length must be dropped - a listener that remembers "this
+	// header+authenticator verified" (retransmission cache) would act on them.
+	for si, sec := range secrets {
+		if !thorough && si == 2 {
+			continue
+		}
+		A := coadrv.Attr
+		shapes := [][]byte{
+			cat(A(44, []byte("sess-0001")), A(1, []byte("bob"))),
+			cat(A(1, []byte("alice")), A(44, []byte("s1")), A(8, []byte{100, 64, 0, 9}), A(27, u32(3600)), A(11, []byte("gold"))),
+			A(44, []byte("only-one-attribute")),
+		}
+		for bi, attrs := range shapes {
+			for ci, code := range []byte{43, 40} {
+				p := coadrv.Sign(code, byte(0x70+bi), attrs, sec)
+				pol := policies[(bi+ci+si)%3]
+				forge := func(newAttrs []byte) []byte { return cat(p[:20], newAttrs) }
+				var forged [][]byte
+				// another Acct-Session-Id / User-Name of the same length
+				f1 := append([]byte(nil), attrs...)
+				for off := 0; off+2 <= len(f1); off += int(f1[off+1]) {
+					if f1[off+1] < 2 {
+						break
+					}
+					if (f1[off] == 44 || f1[off] == 1) && f1[off+1] > 2 {
+						g := append([]byte(nil), attrs...)
+						for k := off + 2; k < off+int(f1[off+1]); k++ {
+							g[k] = 'X'
+						}
+						forged = append(forged, forge(g))
+					}
+				}
+				// attribute order swapped (first attribute moved to the end)
+				if l0 := int(attrs[1]); l0 < len(attrs) {
+					forged = append(forged, forge(cat(attrs[l0:], attrs[:l0])))
+				}
+				// one attribute type changed, one value bit flipped at every attribute byte (quick: every third)
+				g := append([]byte(nil), attrs...)
+				g[0] = 31
+				forged = append(forged, forge(g))
+				for k := 0; k < len(attrs); k++ {
+					if !thorough && k%3 != 2 {
+						continue
+					}
+					g := append([]byte(nil), attrs...)
+					g[k] ^= 0x01
+					forged = append(forged, forge(g))
+				}
+				// the whole area replaced by ONE attribute of the same total length
+				if len(attrs) <= 255 {
+					forged = append(forged, forge(A(44, bytes.Repeat([]byte("z"), len(attrs)-2))))
+				}
+				seq := []string{"new", dgop(sec, pol, p)}
+				for _, f := range forged {
+					seq = append(seq, dgpop(sec, pol, p, f))
+				}
+				// a true retransmission IS authentic; and once another valid request came in between, still dropped
+				seq = append(seq, dgpop(sec, pol, p, p))
+				q := coadrv.Sign(code, byte(0x78+bi), attrs, sec)
+				seq = append(seq, dgpop(sec, pol, q, forged[0]), dgpop(sec, pol, p, cat(q[:20], forged[0][20:])))
+				emit(seq)
+			}
+		}
+	}
+
 	// 4. random datagrams and random mutations of signed requests
 	nrand := 600
 	maxLen := 300
